@@ -82,7 +82,39 @@ func fmtPvs(l []pv) string {
 
 var errInjected = errors.New("injected-fault")
 
+// probeLocker is the sync.Locker handed to WithLockWhileMaterializing: a mutex that lives as long as the case (all
+// materialisations of the stream value share it).  Lock gives up after a while instead of blocking for ever, so that a
+// lock leaked by an earlier materialisation shows as the observation `hang:lock` of the run that could not get it.
+type probeLocker struct {
+	w    *pworld
+	mu   sync.Mutex
+	held bool
+}
+
+func (l *probeLocker) Lock() {
+	deadline := time.Now().Add(1500 * time.Millisecond)
+	for !l.mu.TryLock() {
+		if time.Now().After(deadline) {
+			l.w.mu.Lock()
+			l.w.lockStuck = true
+			l.w.mu.Unlock()
+			return
+		}
+		time.Sleep(200 * time.Microsecond)
+	}
+	l.held = true
+}
+
+func (l *probeLocker) Unlock() {
+	if l.held {
+		l.held = false
+		l.mu.Unlock()
+	}
+}
+
 type pworld struct {
+	lockStuck bool
+	lockers   map[int]*probeLocker
 	mu        sync.Mutex
 	calls     int
 	faultPos  int
@@ -342,6 +374,16 @@ func (p *pparser) pipe() stream.Stream[pv] {
 	case "lc":
 		r := p.int()
 		return p.pipe().WithAdditionalLifecycle(&probeLc{w: w, r: r})
+	case "lock":
+		// WithLockWhileMaterializing over a case-wide mutex (SPEC / ASYNC cases only: not a resource of the Lean model)
+		r := p.int()
+		if w.lockers == nil {
+			w.lockers = map[int]*probeLocker{}
+		}
+		if w.lockers[r] == nil {
+			w.lockers[r] = &probeLocker{w: w}
+		}
+		return p.pipe().WithLockWhileMaterializing(w.lockers[r])
 	case "map":
 		fn := p.next()
 		return stream.MapWithErr(p.pipe(), func(v pv) (pv, error) {
@@ -856,9 +898,17 @@ func execPipe(caseText string) (obs string) {
 		if async {
 			// delivery order of concurrent stages is not part of any property: canonical = sorted
 			sort.Slice(delivered, func(i, j int) bool { return delivered[i].String() < delivered[j].String() })
-			outs = append(outs, fmt.Sprintf("%s %s | calls=%d pre=%d | %s | leak=%d", classifyErr(err), fmtPvs(delivered), w.calls, pre, evStr, leak))
+			cls := classifyErr(err)
+			if w.lockStuck {
+				cls = "hang:lock" // this materialisation could not get the lock an earlier one must have released
+			}
+			outs = append(outs, fmt.Sprintf("%s %s | calls=%d pre=%d | %s | leak=%d", cls, fmtPvs(delivered), w.calls, pre, evStr, leak))
 		} else {
-			outs = append(outs, fmt.Sprintf("%s %s | calls=%d pre=%d | %s", classifyErr(err), fmtPvs(delivered), w.calls, pre, evStr))
+			cls := classifyErr(err)
+			if w.lockStuck {
+				cls = "hang:lock"
+			}
+			outs = append(outs, fmt.Sprintf("%s %s | calls=%d pre=%d | %s", cls, fmtPvs(delivered), w.calls, pre, evStr))
 		}
 		w.mu.Unlock()
 		pre = 0
